@@ -6,6 +6,7 @@ CONSTANTS
   Offsets = {0, 1}
   Sizes = {1, 2}
   Kinds = {1, 2}
+  PPs = {}
   MaxPre = 0
   MaxB = 1
   Widen = {FALSE}
